@@ -14,15 +14,15 @@ pub fn register(f: &mut Scope) {
     def_va!(f, _rgba(kwargs), |s| do_rgba(&name!(rgba), s));
     def!(f, red(color), |s| {
         let c: Color = s.get(name!(color))?;
-        Ok(Value::scalar(c.to_rgba().red().round()))
+        Ok(Value::scalar(c.to_rgba().red()))
     });
     def!(f, green(color), |s| {
         let c: Color = s.get(name!(color))?;
-        Ok(Value::scalar(c.to_rgba().green().round()))
+        Ok(Value::scalar(c.to_rgba().green()))
     });
     def!(f, blue(color), |s| {
         let c: Color = s.get(name!(color))?;
-        Ok(Value::scalar(c.to_rgba().blue().round()))
+        Ok(Value::scalar(c.to_rgba().blue()))
     });
     def!(f, mix(color1, color2, weight = b"50%"), |s| {
         let a: Color = s.get(name!(color1))?;
